@@ -518,30 +518,40 @@ def handle_crashes(ctx, binary, crashes, cases):
     time per process, so the unfinished trace of that process is the one the panic belongs to."""
     dev = "DEV_HandlerAddedAfterWait"
     reported = 0
-    for cr in crashes:
+    # one TLC run for all crashes: the unfinished stream-socket trace of each crashed process (+ "panic")
+    allc, prevc = {}, {}
+    for n, cr in enumerate(crashes):
+        cr.cands = {}
+        if cr.send_closed and dev in vlib.open_devs(ctx.prop):
+            cr.cands = {(n, k): to_records(e, 1, panic=True) for k, e in cr.unfinished.items()
+                        if MODEL_KIND[e[0]["real"]] == "sock"}
+            allc.update(cr.cands)
+    acc = validate(ctx, allc, on=[dev], label="explain-panic")[0] if allc else set()
+    for n, cr in enumerate(crashes):
+        # a handler of the PREVIOUS stream of this process that outlived its trace (the harness waits for them, but
+        # cannot see every goroutine state): try the stream socket trace that ran just before
+        if cr.send_closed and cr.cands and not set(cr.cands) <= acc and len(cr.unfinished) == 1:
+            k0 = list(cr.unfinished)[0]
+            before = [k for k in cr.order[:cr.order.index(k0)] if k in cr.events and complete(cr.events[k])
+                      and MODEL_KIND[cr.events[k][0]["real"]] == "sock"] if k0 in cr.order else []
+            if before:
+                cr.cands = {(n, before[-1]): to_records(cr.events[before[-1]], 1, panic=True)}
+                cr.prev = before[-1]
+                prevc.update(cr.cands)
+    if prevc:
+        acc |= validate(ctx, prevc, on=[dev], label="explain-panic-prev")[0]
+    for n, cr in enumerate(crashes):
         unf = cr.unfinished
         base = [cases[k] for k in sorted(unf, key=str) if k in cases][:24]
-        if cr.send_closed:
-            cands = {k: to_records(e, 1, panic=True) for k, e in unf.items() if MODEL_KIND[e[0]["real"]] == "sock"}
-            if cands and dev in vlib.open_devs(ctx.prop):
-                acc, _ = validate(ctx, cands, on=[dev], label="explain-panic")
-                if len(acc) != len(cands) and len(unf) == 1:
-                    # a handler of the PREVIOUS stream of this process that outlived its trace (the harness waits for
-                    # them, but cannot see every goroutine state): try the stream socket trace that ran just before
-                    k0 = list(unf)[0]
-                    before = [k for k in cr.order[:cr.order.index(k0)] if k in cr.events and complete(cr.events[k])
-                              and MODEL_KIND[cr.events[k][0]["real"]] == "sock"] if k0 in cr.order else []
-                    if before:
-                        cands = {before[-1]: to_records(cr.events[before[-1]], 1, panic=True)}
-                        base = [cases[before[-1]]] if before[-1] in cases else base
-                        acc, _ = validate(ctx, cands, on=[dev], label="explain-panic-prev")
-                if acc and len(acc) == len(cands):
-                    k = sorted(acc, key=lambda x: len(cands[x]))[0]
-                    known(ctx, dev, "%s; witness of this run: %s" % (
-                        vlib.open_finding(ctx.prop, dev).get("what", ""), json.dumps(brief(cands[k]), separators=(",", ":"))))
-                    d = ctx.cov.setdefault("explained_by_open_finding", {})
-                    d[dev] = d.get(dev, 0) + 1
-                    continue
+        if getattr(cr, "prev", None) in cases:
+            base = [cases[cr.prev]]
+        if cr.send_closed and cr.cands and set(cr.cands) <= acc:
+            k = sorted(cr.cands, key=lambda x: len(cr.cands[x]))[0]
+            known(ctx, dev, "%s; witness of this run: %s" % (
+                vlib.open_finding(ctx.prop, dev).get("what", ""), json.dumps(brief(cr.cands[k]), separators=(",", ":"))))
+            d = ctx.cov.setdefault("explained_by_open_finding", {})
+            d[dev] = d.get(dev, 0) + 1
+            continue
         if reported >= 2:
             continue
         # not explained by an open finding: re-execute the case(s) that were in flight
@@ -566,8 +576,6 @@ def handle_crashes(ctx, binary, crashes, cases):
 
 def run(ctx):
     binary = vlib.build(ctx, "c17")
-    if not os.environ.get("VERIF_C17_SKIP_MODEL"):      # developer switch for mutation experiments only
-        model_stage(ctx)
     rng = random.Random(ctx.seed * 1000003 + 17)
     n = 1200 if ctx.thorough else 260
     deadline = 10
@@ -575,19 +583,22 @@ def run(ctx):
     for i in range(1, n + 1):
         cases[i] = gen_case(rng, i, KINDS[i % len(KINDS)])
     procs = min(vlib.NCPU, 8)
-    # one trace at a time per process: a panic inside the stream is then attributable to exactly one trace
-    events, crashes = run_cases(ctx, binary, list(cases.values()), procs=procs, par=1, deadline=deadline, tag="random",
-                                resume=True)
     wid = n + 1
     wit = {wid: witness_noconn(wid, "unix"), wid + 1: witness_noconn(wid + 1, "tcp")}
-    cases.update(wit)
-    wev, wcr = run_cases(ctx, binary, list(wit.values()), procs=1, par=2, deadline=deadline, tag="witness")
-    events.update(wev)
-    crashes += wcr
-    # the race hunt: sequential in its own processes; only the last traces of each process are validated
     nh = 16000 if ctx.thorough else 3000
     hunts = {i: hunt_case(rng, i) for i in range(10001, 10001 + nh)}
-    hev, hcr = run_cases(ctx, binary, list(hunts.values()), procs=min(vlib.NCPU, 4), par=1, deadline=deadline, tag="hunt")
+    # The model stage (TLC), the random traces, the two stalling witnesses (10 s each) and the race hunt run
+    # side by side.  One trace at a time per harness process: a panic inside the stream is then attributable
+    # to exactly one trace.
+    jobs = [lambda: None if os.environ.get("VERIF_C17_SKIP_MODEL") else model_stage(ctx),    # developer switch
+            lambda: run_cases(ctx, binary, list(cases.values()), procs=procs, par=1, deadline=deadline, tag="random",
+                              resume=True),
+            lambda: run_cases(ctx, binary, list(wit.values()), procs=1, par=2, deadline=deadline, tag="witness"),
+            lambda: run_cases(ctx, binary, list(hunts.values()), procs=min(vlib.NCPU, 4), par=1, deadline=deadline, tag="hunt")]
+    _, (events, crashes), (wev, wcr), (hev, hcr) = _par(jobs, width=4)
+    cases.update(wit)
+    events.update(wev)
+    crashes += wcr
     cases.update(hunts)
     keep = sorted(k for k in hev if complete(hev[k]))
     for k in keep[::max(1, len(keep) // 150)]:
